@@ -74,7 +74,9 @@ class WfDef(object):
             return self._e("succeeded() and ctx()." + cond[1] + " >= " + str(cond[2]))
         raise ValueError(cond)
 
-    def _publish(self, k, p):
+    def _publish(self, k, p, items=False):
+        if isinstance(p, str) and items:
+            return {p: self._e("result()")}
         if isinstance(p, str):
             if self.lang == "yaql":
                 return {p: self._e("result().get(t" + str(k) + "_" + p + ")")}
@@ -112,7 +114,7 @@ class WfDef(object):
                 if w:
                     tr["when"] = w
                 if pubs:
-                    tr["publish"] = [self._publish(k, p) for p in pubs]
+                    tr["publish"] = [self._publish(k, p, "items" in t) for p in pubs]
                 if do:
                     tr["do"] = list(do)
                 nx.append(tr)
@@ -185,12 +187,25 @@ def _catalogue():
     add("D07", {"s": T([("any", [], ["a", "x"])]),
                 "a": T([("fail", [], ["cleanup", "fail"]), ("ok", [], ["b"])]),
                 "cleanup": T(), "x": T(), "b": T()})
+    # D07w clean-up task with items (stays staged while its items run) beside fail, sibling with a successor
+    add("D07w", {"s": T([("any", [], ["a", "x"])]),
+                 "a": T([("fail", [], ["cleanup", "fail"]), ("ok", [], ["b"])]),
+                 "cleanup": T(items=2, conc=1), "x": T([("ok", [], ["y"])]), "y": T(), "b": T()},
+        inputs={"xs": [10, 11]}, input_decl=["xs"])
+    # D11j with-items task whose failure is remediated, both outcomes converging on a join
+    add("D11j", {"w": T([("ok", [], ["x"]), ("fail", [], ["y"])], items=2, conc=2),
+                 "x": T([("ok", [], ["j"])]), "y": T([("ok", [], ["j"])]), "j": T(join="all")},
+        inputs={"xs": [10, 11]}, input_decl=["xs"])
     # D08 noop / implicit continue with publish
     add("D08", {"a": T([("fail", [], ["noop"]), ("ok", ["y"], ["b", "c"])]),
                 "b": T([("fail", ["z"], [])]), "c": T()}, output=["y", "z"])
     # D09 counter-bounded loop, one entry and one back edge
     add("D09", {"init": T([("ok", [], ["a"])]), "a": T([("ok", [("i", "inc")], ["b"])]),
                 "b": T([(("lt", "i", 2), [], ["a"]), (("ge", "i", 2), [], ["c"])]), "c": T()},
+        vars={"i": 0})
+    # D09b loop whose back edge publishes the counter that the sibling exit transition tests
+    add("D09b", {"init": T([("ok", [], ["a"])]), "a": T([("ok", [], ["b"])]),
+                 "b": T([(("lt", "i", 2), [("i", "inc")], ["a"]), (("ge", "i", 2), [], ["c"])]), "c": T()},
         vars={"i": 0})
     # D10 retry beside a parallel branch
     add("D10", {"s": T([("any", [], ["a", "b"])]),
